@@ -83,7 +83,7 @@ def run_one(args):
     mod = registry.get(prop)
     seed = derive_seed(base_seed, prop, run_index)
     out = {"run_index": run_index, "seed": seed}
-    faulthandler.dump_traceback_later(cap_s * 3 + 60, exit=True)
+    faulthandler.dump_traceback_later(cap_s + 240, exit=True)
     old = signal.signal(signal.SIGALRM, _alarm_handler)
     signal.alarm(int(cap_s))
     t0 = time.time()
@@ -94,7 +94,9 @@ def run_one(args):
         plan["verif_seed"] = int(base_seed)
         plan["run_index"] = run_index
         plan["tier"] = tier
-        res = mod.execute(plan)
+        from sim import seams
+        with seams.solver_guard():
+            res = mod.execute(plan)
         out.update(res)
         if res.get("violation") is not None or run_index % 500 < 2 or (opts and opts.get("keep_plan")):
             out["plan"] = plan
@@ -116,8 +118,10 @@ def execute_plan(prop, plan, cap_s=600):
     mod = registry.get(prop)
     old = signal.signal(signal.SIGALRM, _alarm_handler)
     signal.alarm(int(cap_s))
+    from sim import seams
     try:
-        return mod.execute(plan)
+        with seams.solver_guard():
+            return mod.execute(plan)
     finally:
         signal.alarm(0)
         signal.signal(signal.SIGALRM, old)
@@ -129,6 +133,21 @@ def _exec_for_pool(args):
         return execute_plan(prop, plan, cap_s)
     except BaseException as e:  # noqa
         return {"harness_error": "%s: %s" % (type(e).__name__, e), "violation": None}
+
+
+def run_plans_in_pool(prop, plans, cap_s):
+    if not plans:
+        return []
+    ctx = mp.get_context("fork")
+    with cf.ProcessPoolExecutor(max_workers=min(len(plans), n_workers()), mp_context=ctx) as ex:
+        futs = [ex.submit(_exec_for_pool, (prop, p, cap_s)) for p in plans]
+        out = []
+        for f in futs:
+            try:
+                out.append(f.result(timeout=cap_s * 3 + 120))
+            except Exception as e:  # noqa
+                out.append({"violation": None, "harness_error": "pinned plan: %s: %s" % (type(e).__name__, e)})
+        return out
 
 
 # --------------------------------------------------------------------------- batch
@@ -223,7 +242,7 @@ def ddmin_steps(prop, plan, sig, budget, exec_fn, key="plan"):
     return out
 
 
-def shrink(prop, plan, violation, max_exec=150, max_wall=240):
+def shrink(prop, plan, violation, max_exec=120, max_wall=120):
     """ddmin over steps, then property-specific simplifications, while the violation *signature*
     persists.  Candidates that turn into a listed known finding do not count as failing (the
     executor itself never reports known triggers as violations)."""
@@ -379,12 +398,12 @@ def main_check(prop, argv):
     # 1. pinned plans: known findings and fixed regressions
     known = load_known(prop)
     known_lines, pinned_runs = [], 0
-    for e in known:
-        plan = e.get("plan")
-        if not plan:
-            continue
+    # (executed in worker processes: the parent must not run solver code before it forks the pool)
+    pinned = [e for e in known if e.get("plan")]
+    pinned_res = run_plans_in_pool(prop, [dict(e["plan"], _pinned=e["id"]) for e in pinned], cap)
+    for e, r in zip(pinned, pinned_res):
+        plan = e["plan"]
         pinned_runs += 1
-        r = _exec_for_pool((prop, dict(plan, _pinned=e["id"]), cap))
         if r.get("harness_error"):
             print("HARNESS-ERROR in pinned plan %s: %s" % (e["id"], r["harness_error"]))
             return EXIT_HARNESS
